@@ -141,7 +141,7 @@ func (x *exec) arith(fr *frame, s *State, op token.Token, a, b string, t types.T
 			}
 			r = App(f, a, b)
 		}
-		if x.claims("overflow") && (op == token.ADD || op == token.SUB || op == token.MUL) {
+		if x.claimsOverflow(t) && (op == token.ADD || op == token.SUB || op == token.MUL) {
 			x.oblig(fr, s, "overflow", x.srcText(pos, op.String()), pos, x.noOverflowBV(op, a, b, bits, signed), nil)
 		}
 		return x.mkVal(x.c.Let("a", x.c.SortOf(t), r), t)
@@ -216,7 +216,7 @@ func (x *exec) arith(fr *frame, s *State, op token.Token, a, b string, t types.T
 	}
 	switch op {
 	case token.ADD, token.SUB, token.MUL:
-		if x.claims("overflow") {
+		if x.claimsOverflow(t) {
 			x.oblig(fr, s, "overflow", x.srcText(pos, op.String()), pos, x.c.Range(r, t), nil)
 		} else {
 			r = x.wrapInt(r, t)
@@ -227,6 +227,21 @@ func (x *exec) arith(fr *frame, s *State, op token.Token, a, b string, t types.T
 		}
 	}
 	return x.mkVal(x.c.Let("a", "Int", r), t)
+}
+
+// claimsOverflow: `claims overflow` (all integer arithmetic of the function is exact) or
+// `claims overflow:pkg.Type` (arithmetic on that named type only, e.g. overflow:common.Fixed64).
+func (x *exec) claimsOverflow(t types.Type) bool {
+	if x.claims("overflow") {
+		return true
+	}
+	if x.con == nil || x.suppress {
+		return false
+	}
+	if n, ok := t.(*types.Named); ok && n.Obj() != nil && n.Obj().Pkg() != nil {
+		return x.con.Claims["overflow:"+n.Obj().Pkg().Name()+"."+n.Obj().Name()]
+	}
+	return false
 }
 
 func (x *exec) wrapInt(r string, t types.Type) string {
